@@ -262,7 +262,7 @@ def profile_diff(ctx, profiles):
                 if la == lb:
                     continue
                 pa, pb = la.rstrip("\n").split("\t"), lb.rstrip("\n").split("\t")
-                if len(pa) < 5 or len(pb) < 5:
+                if len(pa) != 5 or len(pb) != 5:      # a line cut short when a stalled job was killed in the middle of a write
                     continue
                 if pa[0] != pb[0]:
                     aligned = False
@@ -277,11 +277,11 @@ def profile_diff(ctx, profiles):
             m = {}
             for line in open(fa, errors="replace"):
                 parts = line.rstrip("\n").split("\t")
-                if len(parts) >= 5:
+                if len(parts) == 5:
                     m[parts[0]] = parts[1:]
             for line in open(fb, errors="replace"):
                 parts = line.rstrip("\n").split("\t")
-                v = m.get(parts[0]) if len(parts) >= 5 else None
+                v = m.get(parts[0]) if len(parts) == 5 else None
                 if v is not None and v[0] != parts[1]:
                     out.append({"cat": "profile_diff", "e": v[1], "input": v[3], "ph": v[2], "ph_show": v[2], "expected": "same outcome in debug and release",
                                 "actual": "%s: %s / %s: %s" % (a, v[0], b, parts[1]), "extra": {}})
